@@ -63,7 +63,7 @@ def main(tier):
     chk.evaluations = total
     # distinct non-trivial: measured in the release pass only (the dev pass repeats the same texts)
     chk.nontrivial = set(range(with_diags))
-    chk.note("exhaustive", f"all sequences of <= {n_items} items over {len(ttext.ALPHABET)} items, both profiles")
+    chk.note("exhaustive_part", f"all sequences of <= {n_items} items over {len(ttext.ALPHABET)} items, both profiles")
     chk.note("repository_grammars_mutated", len(grams))
     tf.unlink(missing_ok=True)
     chk.finish(RULE, min_nontrivial=10000)
